@@ -164,14 +164,14 @@ fn unmarshal_header_fields(
     header: &Header,
     cursor: &mut Cursor,
 ) -> UnmarshalResult<Vec<HeaderField>> {
-    let header_fields_bytes = cursor.read_u32(header.byteorder)?;
+    let header_fields_bytes = check_array_len(cursor.read_u32(header.byteorder)?)?;
 
-    if cursor.remainder().len() < header_fields_bytes as usize {
+    if cursor.remainder().len() < header_fields_bytes {
         return Err(UnmarshalError::NotEnoughBytes);
     }
 
     // The fields start at offset 16 of the message, so offsets in this region have the same alignment as in the whole message
-    let fields_buf = cursor.read_raw(header_fields_bytes as usize)?;
+    let fields_buf = cursor.read_raw(header_fields_bytes)?;
     let mut cursor = Cursor::new(fields_buf);
     let mut fields = Vec::new();
 
